@@ -33,7 +33,7 @@ var Root = func() string {
 }()
 
 // hangLimit is the watchdog limit for one case of a Parallel loop.
-const hangLimit = 30 * time.Second
+const hangLimit = 5 * time.Minute
 
 // Violation is one failing case.
 type Violation struct {
@@ -170,7 +170,8 @@ func (r *Run) Parallel(total uint64, f func(worker int, i uint64)) (completed bo
 	var wg sync.WaitGroup
 	var stop atomic.Bool
 	// Watchdog: a case that does not return within hangLimit is a hang of the
-	// code under test (a case normally costs microseconds). It cannot be
+	// code under test (a case normally costs microseconds to a few seconds; the
+	// limit is minutes so that a loaded machine cannot trip it). It cannot be
 	// interrupted in-process, so it is reported and the process exits.
 	type slot struct {
 		start atomic.Int64
